@@ -2,6 +2,7 @@
 // minimisation and crash containment).
 #include "exec.hpp"
 #include "gen.hpp"
+#include "mini.hpp"
 
 #include <chrono>
 #include <csignal>
@@ -27,8 +28,8 @@ __ubsan_default_options() {
 
 namespace ys {
 
-int listsim_main(const std::string& tier, std::uint64_t base, long from, long to, double secs);
-int hashsim_main(const std::string& tier, std::uint64_t base, long from, long to, double secs);
+MiniEngine list_engine();
+MiniEngine hash_engine();
 
 static double now_s() {
     using namespace std::chrono;
@@ -726,6 +727,10 @@ static int cmd_run(
 
 static int cmd_replay(const std::string& path, bool verbose) {
     J j = jparse(read_file(path));
+    if (j.gets("engine", "") == "list")
+        return mini_replay(list_engine(), j, verbose);
+    if (j.gets("engine", "") == "hash")
+        return mini_replay(hash_engine(), j, verbose);
     Plan plan = plan_from_json(j);
     std::string prop = plan.prop;
     std::string want;
@@ -814,9 +819,9 @@ int main(int argc, char** argv) {
             double secs = atof(arg(argc, argv, "--secs", "30"));
             int maxf = atoi(arg(argc, argv, "--max-failures", "3"));
             if (prop == "list")
-                rc = listsim_main(tier ? "thorough" : "quick", base, from, to, secs);
+                rc = mini_run(list_engine(), tier, base, from, to, secs, g_outdir, g_sigfile, maxf);
             else if (prop == "hash")
-                rc = hashsim_main(tier ? "thorough" : "quick", base, from, to, secs);
+                rc = mini_run(hash_engine(), tier, base, from, to, secs, g_outdir, g_sigfile, maxf);
             else
                 rc = cmd_run(prop, tier, base, from, to, secs, maxf);
         } else {
